@@ -73,6 +73,7 @@ pub fn vec_filter_pos(amount: Vec<Coin>) -> (r: Vec<Coin>)
 
 //@ fn src/bank.rs :: coins_to_string
 //@   ret r
+//@   replace "fn coins_to_string(coins: &[Coin]) -> String" => "fn coins_to_string(coins: &[Coin]) -> String"
 //@   drop_body
 //@   ensures [C04.bank.coins_text] r@ == spec_coins_text(coins@)
 //@ end
